@@ -9,7 +9,7 @@ use vbase::{ensure, fail};
 use crate::lazyhelp::{gen_skip_stress, to_pointer};
 use crate::sx::walk;
 
-pub const RULE: &str = "cases are (document, path set) and (schema, document) pairs. Documents: well-formed duplicate-free generated / skip-stress documents arrays of 65..200 elements (indices >= 64), documents nested 120..800 levels deep with the targets at the bottom (paths longer than the 255-level limit of the full parsers), objects with up to 120 empty-object members in front of a value nested 200..253 levels deep. Path sets: drawn from the reference tree by generated choices — subsets of valid paths, shared prefixes, a path that is a prefix of another, repeated paths, the root path, missing keys under objects and out-of-range indices under arrays (shape-consistent by construction). get_many and get_many_unchecked must return tree.size() slots in insertion order; a filled slot equals get(path_i) in text and offset; an empty slot only for a path that fails on a missing key; all slots filled and Ok when every path resolves; equal paths get identical slots; Err only if some path does not resolve. Schemas are generated from the document's object skeleton (kept keys with defaults of every kind, absent keys, nested non-empty and empty object schemas, type-mismatched positions); get_by_schema must equal the reference merge (order-insensitive) and, with numbers compared through as_raw_number, the merge of the parsed document into the schema (so in the arbitrary_precision build the literals are kept). Non-trivial = >= 2 paths sharing a prefix, a repeated path or a prefix-and-target pair; schema with an absent key and a nested non-empty object; distinct by case bytes.";
+pub const RULE: &str = "cases are (document, path set) and (schema, document) pairs. Documents: well-formed duplicate-free generated / skip-stress documents arrays of 65..200 elements (indices >= 64), documents nested 120..800 levels deep with the targets at the bottom (paths longer than the 255-level limit of the full parsers), objects with up to 120 empty-object members in front of a value nested 200..253 levels deep. Path sets: drawn from the reference tree by generated choices — subsets of valid paths, shared prefixes, a path that is a prefix of another, repeated paths, the root path, missing keys under objects and out-of-range indices under arrays (shape-consistent by construction). get_many and get_many_unchecked must return tree.size() slots in insertion order; a filled slot equals get(path_i) in text and offset, and in everything else a caller can read (as_str of the slot, of a copy of it and of get's result, also against the reference decoding; get_type; both converted into OwnedLazyValue, read and serialized); an empty slot only for a path that fails on a missing key; all slots filled and Ok when every path resolves; equal paths get identical slots; Err only if some path does not resolve. Schemas are generated from the document's object skeleton (kept keys with defaults of every kind, absent keys, nested non-empty and empty object schemas, type-mismatched positions); get_by_schema must equal the reference merge (order-insensitive) and, with numbers compared through as_raw_number, the merge of the parsed document into the schema (so in the arbitrary_precision build the literals are kept). Non-trivial = >= 2 paths sharing a prefix, a repeated path or a prefix-and-target pair; schema with an absent key and a nested non-empty object; distinct by case bytes.";
 pub const ASSUMPTIONS: &[&str] = &["refjson parser / lookup", "path sets mixing key and index children under one prefix are outside the quantifier and not generated", "get (single path) is checked against the reference in C10"];
 
 fn split_case(case: &[u8]) -> Option<(&[u8], &[u8])> {
